@@ -634,6 +634,29 @@ func (q *TransferQueue) enqueueAndCollectRetriesFor(batch batch) (batch, error) 
 		}
 	}
 
+	// The server may leave requested objects out of its response, or list
+	// one more than once. An object left out would otherwise be waited on
+	// forever, so report it and account for it here; repeated entries are
+	// skipped below so that each object is transferred and accounted for
+	// at most once per batch.
+	returned := make(map[string]struct{}, len(bRes.Objects))
+	for _, o := range bRes.Objects {
+		returned[o.Oid] = struct{}{}
+	}
+	requested := make(map[string]struct{}, len(batch))
+	for _, t := range batch {
+		requested[t.Oid] = struct{}{}
+		if _, ok := returned[t.Oid]; !ok {
+			verifhook.Yield("batch.errc.omitted", q)
+			q.errorc <- errors.New(tr.Tr.Get("[%v] The server did not return this object in its response.", t.Oid))
+
+			q.Skip(t.Size)
+			verifhook.Yield("batch.wgdone.omitted", q)
+			verifhook.Event("wg-1", q, t.Oid, "omitted")
+			q.wait.Done()
+		}
+	}
+
 	if len(bRes.Objects) == 0 {
 		return next, nil
 	}
@@ -659,7 +682,14 @@ func (q *TransferQueue) enqueueAndCollectRetriesFor(batch batch) (batch, error) 
 
 	toTransfer := make([]*Transfer, 0, len(bRes.Objects))
 
+	handled := make(map[string]struct{}, len(bRes.Objects))
 	for _, o := range bRes.Objects {
+		if _, dup := handled[o.Oid]; dup {
+			tracerx.Printf("tq: ignoring repeated entry for %q in batch response", o.Oid)
+			continue
+		}
+		handled[o.Oid] = struct{}{}
+
 		if o.Error != nil {
 			verifhook.Yield("batch.errc.objerr", q)
 			q.errorc <- errors.Wrapf(o.Error, "[%v] %v", o.Oid, o.Error.Message)
@@ -676,7 +706,7 @@ func (q *TransferQueue) enqueueAndCollectRetriesFor(batch batch) (batch, error) 
 		objects, ok := q.transfers[o.Oid]
 		q.trMutex.Unlock()
 		verifhook.Unlock("batch.lookup", q)
-		if !ok {
+		if _, asked := requested[o.Oid]; !ok || !asked {
 			// If we couldn't find any associated
 			// Transfer object, then we give up on the
 			// transfer by telling the progress meter to
@@ -684,10 +714,9 @@ func (q *TransferQueue) enqueueAndCollectRetriesFor(batch batch) (batch, error) 
 			verifhook.Yield("batch.errc.unknown", q)
 			q.errorc <- errors.New(tr.Tr.Get("[%v] The server returned an unknown OID.", o.Oid))
 
+			// Nothing was added to the queue for this OID, so there
+			// is nothing to mark as done.
 			q.Skip(o.Size)
-			verifhook.Yield("batch.wgdone.unknown", q)
-			verifhook.Event("wg-1", q, o.Oid, "unknown-oid")
-			q.wait.Done()
 		} else {
 			// Pick t[0], since it will cover all transfers with the
 			// same OID.
